@@ -695,11 +695,11 @@ pub fn ref_ipfix_sets(b: &[u8], cache: &mut RefCache, q: &mut Q) -> Result<(Vec<
             _ => match cache.ipfix.get(&id) {
                 None => RefSet::UnknownTemplate(id),
                 Some(RefTpl::Plain(f)) => match ipfix_records(f, body, q)? {
-                    Some((flat, n, pad)) => RefSet::Decoded(CSet { id, len: len as u16, body: CBody::Data(flat, Some(n), pad) }),
+                    Some((flat, _n, pad)) => RefSet::Decoded(CSet { id, len: len as u16, body: CBody::Data(flat, None, pad) }),
                     None => RefSet::UnknownTemplate(id),
                 },
                 Some(RefTpl::IpfixOpt(_, f)) => match ipfix_records(f, body, q)? {
-                    Some((flat, n, pad)) => RefSet::Decoded(CSet { id, len: len as u16, body: CBody::OptData(flat, Some(n), pad) }),
+                    Some((flat, _n, pad)) => RefSet::Decoded(CSet { id, len: len as u16, body: CBody::OptData(flat, None, pad) }),
                     None => RefSet::UnknownTemplate(id),
                 },
                 Some(RefTpl::V9Opt(..)) => return nc("internal: v9 template in ipfix cache"),
